@@ -82,6 +82,16 @@ pub fn emit(seed: u64, rounds: usize) {
         };
         println!("@@CASE@@ O\n({}, {})", textgen::tree_term(&expected, &names), textgen::tree_term(&got, &names));
     }
+    // TextParams::default() holds OpenSCAD's defaults of text(): size 10, font "Liberation Sans", left / baseline, spacing 1,
+    // ltr, language "en", script "latin", $fn unset (written here from OpenSCAD's documentation, not from the crate)
+    {
+        let tp = TextParams { text: "abc".to_string(), ..Default::default() };
+        let got = text!(text_params = tp);
+        let expected = Scad { op: ScadOp::Text { text: "abc".to_string(), size: 10.0, font: "Liberation Sans".to_string(), halign: TextHalign::left,
+                                                 valign: TextValign::baseline, spacing: 1.0, direction: TextDirection::ltr, language: "en".to_string(),
+                                                 script: "latin".to_string(), fn_: None }, children: vec![] };
+        println!("@@CASE@@ O\n({}, {})", textgen::tree_term(&expected, &names), textgen::tree_term(&got, &names));
+    }
     for round in 0..rounds {
         for k in 0..crate::macro_cases::N_ARMS {
             reset();
